@@ -225,7 +225,6 @@ const preamble = `(set-option :produce-models true)
 (declare-fun ssub (Str Int Int) Str)
 (declare-fun scat (Str Str) Str)
 (declare-fun strrow (Str) (Array Int Int))
-(assert (forall ((s Str) (i Int)) (! (= (select (strrow s) i) (sat s i)) :pattern ((select (strrow s) i)))))
 (declare-datatypes ((Slice 0)) (((mkslice (sref Int) (soff Int) (slen_ Int) (scap Int)))))
 (define-fun tdiv ((a Int) (b Int)) Int (ite (>= a 0) (ite (> b 0) (div a b) (- (div a (- b)))) (ite (> b 0) (- (div (- a) b)) (div (- a) (- b)))))
 (define-fun tmod ((a Int) (b Int)) Int (- a (* b (tdiv a b))))
@@ -241,6 +240,8 @@ const preamble = `(set-option :produce-models true)
 (declare-fun typeof (Int) Int)
 (declare-fun blen (Int) Int)
 `
+
+const strrowAxiom = "(assert (forall ((s Str) (i Int)) (! (= (select (strrow s) i) (sat s i)) :pattern ((select (strrow s) i)))))\n"
 
 // ---- solver race ----
 
@@ -259,6 +260,9 @@ type solverSpec struct {
 
 var solvers = []solverSpec{
 	{"z3-new", func(f string, t int) []string { return []string{fmt.Sprintf("-T:%d", t), f} }, "z3-new"},
+	// E-matching only (no model-based instantiation): often decisive for
+	// proofs that instantiate contract quantifiers at loop indices
+	{"z3-new/ematch", func(f string, t int) []string { return []string{"smt.mbqi=false", "smt.random_seed=7", fmt.Sprintf("-T:%d", t), f} }, "z3-new"},
 	{"cvc5", func(f string, t int) []string {
 		return []string{"--incremental", fmt.Sprintf("--tlimit=%d", t*1000), f}
 	}, "cvc5"},
